@@ -1147,6 +1147,8 @@ func (env *CEnv) pureMethod(recv CV, name string, args []*CExpr) (CV, bool) {
 			return CV{V: BVAdd(t, Resize(o, 128, true)), T: recv.T}, true
 		case "UTC":
 			return recv, true
+		case "Unix":
+			return CV{V: App("timeunix", BV(64), t), T: types.Typ[types.Int64]}, true
 		}
 	}
 	return CV{}, false
